@@ -3,7 +3,8 @@ The refinement theorem on the fragment: the compiled flow and the reference flow
 fragment have the same index-resolved abstraction (category names not observed).
 -/
 import Rpft.Lemmas.CoreSwitch
-import Rpft.Lemmas.CoreFixAbs
+import Rpft.Lemmas.CoreImplAbs
+import Rpft.Lemmas.FlowSplit
 set_option linter.unusedSimpArgs false
 set_option linter.unusedVariables false
 namespace Rpft.CoreSheet
@@ -40,31 +41,40 @@ theorem pass1_state {rows : List RRow} {out : List OutEdge} (h : pass1 rows = .o
 theorem good_of_fragment (rows : List CRow) (outE : List OutEdge) (hf : inFragment rows = true)
     (hp : pass1 (rows.map toRRow) = .ok outE) : (∀ c ∈ rows, rowOk c = true) ∧ Good rows outE := by
   simp only [inFragment, Bool.and_eq_true, List.all_eq_true, hp] at hf
-  obtain ⟨h1, h2, h3⟩ := hf
-  refine ⟨h1, ⟨h2, ?_⟩⟩
-  intro j c hc
-  have hj : j < rows.length := (List.getElem?_eq_some_iff.mp hc).1
-  simp only [distinctTests, List.all_eq_true, List.mem_range] at h3
-  have := h3 j hj
-  rw [hc] at this
-  intro hk
-  have hmem : c.row.type ∈ switchTypes := by
-    rcases switch_type_of_kind hk with h | h | h <;> rw [h] <;> decide
-  simp only [Bool.or_eq_true, Bool.not_eq_true', decide_eq_true_eq] at this
-  rcases this with h | h
-  · rw [← List.contains_iff_mem, h] at hmem; cases hmem
-  · exact h
+  obtain ⟨h1, ⟨h2, h3⟩, h4⟩ := hf
+  refine ⟨h1, ⟨h2, ?_, ?_⟩⟩
+  · intro j c hc hk
+    have hj : j < rows.length := (List.getElem?_eq_some_iff.mp hc).1
+    simp only [distinctTests, List.all_eq_true, List.mem_range] at h3
+    have := h3 j hj
+    rw [hc] at this
+    have hmem : (switchTypes.contains c.row.type || decide (kindOf c.row.type = .action)) = true := by
+      rcases hk with hk | hk
+      · have : c.row.type ∈ switchTypes := by
+          rcases switch_type_of_kind hk with h | h | h <;> rw [h] <;> decide
+        rw [List.contains_iff_mem.mpr this]; rfl
+      · rw [decide_eq_true hk, Bool.or_true]
+    have this2 : (!(switchTypes.contains c.row.type || decide (kindOf c.row.type = .action)) ||
+        decide (((testsOf (kindOf c.row.type) (outE.filter (·.src = j))).map
+          (fun e => refTest (kindOf c.row.type) e.cond)).Nodup)) = true := this
+    rw [hmem] at this2
+    simpa using this2
+  · intro j c hc hk e he
+    have hj : j < rows.length := (List.getElem?_eq_some_iff.mp hc).1
+    simp only [sameVars, List.all_eq_true, List.mem_range] at h4
+    have := h4 j hj
+    rw [hc] at this
+    have this2 : (!decide (kindOf c.row.type = .action) ||
+        ((outE.filter (·.src = j)).filter (fun e => !e.cond.blank)).all
+          (fun e => decide (e.cond.var = implVar (outE.filter (·.src = j))))) = true := this
+    simp only [hk, decide_true, Bool.not_true, Bool.false_or, List.all_eq_true, decide_eq_true_eq] at this2
+    exact this2 e he
 
 theorem forall2_map_eq {α β γ} {R : α → β → Prop} {f : α → γ} {g : β → γ} {l1 : List α} {l2 : List β}
     (h : List.Forall₂ R l1 l2) (hfg : ∀ a b, R a b → f a = g b) : l1.map f = l2.map g := by
   induction h with
   | nil => rfl
   | cons hab _ ih => simp [hfg _ _ hab, ih]
-
-theorem lastTgt_eq (es : List OutEdge) (p : OutEdge → Bool) :
-    lastTgt es p = (((es.filter p).getLast?).map (·.tgt)).bind tgtDest := by
-  unfold lastTgt
-  cases (es.filter p).getLast? <;> rfl
 
 theorem type_of_wait {t : Str} (h : kindOf t = .wait) : t = "wait_for_response".toList := by
   rcases switch_type_of_kind (.inl h) with h1 | h1 | h1
@@ -84,15 +94,13 @@ theorem forall2_map_eq_mem {α β γ} {R : α → β → Prop} {f : α → γ} {
     simp only [List.map_cons]
     rw [hfg _ _ (by simp) hab, ih (fun a b hb => hfg a b (by simp [hb]))]
 
-/-- one node: the reference node of row `j` and the compiled node have the same abstraction, given
-that destinations resolve alike (`dm`) -/
-theorem node_abs_eq (rnf : Bool) (F r : Flow) (M : Maps) (ns : Array NodeM) (j : Nat) (n : NodeM) (c : CRow)
+/-- one node: the reference node of row `j` and the compiled node have the same actions and the same
+decision, and corresponding destinations -/
+theorem node_abs_rel (rnf : Bool) (F r : Flow) (M : Maps) (ns : Array NodeM) (j : Nat) (n : NodeM) (c : CRow)
     (es : List OutEdge) (hsim : NodeSim M ns n c es) (hfc : nodeRowOk c = true)
     (rows : List CRow) (hcj : rows[j]? = some c) (hok : ∀ e ∈ es, edgeOk rows e = true ∧ e.src = j)
-    (hfn0 : n.fids.Nodup)
-    (dm : ∀ (d : Dest) (t : Option Target), (∀ k, t = some (Target.row k) → ∃ e ∈ es, e.tgt = Target.row k) →
-      DestIs M ns d t → destIdx F (renderDest d) = destIdx r (t.bind tgtDest)) :
-    absNode ⟨false, rnf⟩ r (mkNode j (toRRow c) es) = absNode ⟨false, rnf⟩ F (renderNode n) := by
+    (hfn0 : n.fids.Nodup) :
+    AbsRel (DR F r M ns es) (absNode ⟨false, rnf⟩ r (mkNode j (toRRow c) es)) (absNode ⟨false, rnf⟩ F (renderNode n)) := by
   have hlast : ∀ (l : List OutEdge), (∀ e ∈ l, e ∈ es) → ∀ k, (l.getLast?).map (·.tgt) = some (Target.row k) →
       ∃ e ∈ es, e.tgt = Target.row k := by
     intro l hl k hk
@@ -108,11 +116,7 @@ theorem node_abs_eq (rnf : Bool) (F r : Flow) (M : Maps) (ns : Array NodeM) (j :
   cases hsim with
   | plain hk hp =>
     -- an action row: all its out-edges are unconditional
-    have hbl : ∀ e ∈ es, e.cond.blank = true := by
-      intro e he
-      obtain ⟨this, hsrc⟩ := hok e he
-      simp only [edgeOk, hsrc, hcj, Option.map_some, hk] at this
-      exact this
+    have hbl : ∀ e ∈ es, e.cond.blank = true := hp.blank
     have hact : (toRRow c).act = c.row.action := by
       simp only [nodeRowOk, Bool.or_eq_true] at hfc
       rcases hfc with ((h1 | h1) | h1) | h1
@@ -128,8 +132,7 @@ theorem node_abs_eq (rnf : Bool) (F r : Flow) (M : Maps) (ns : Array NodeM) (j :
         have h2 := kindOf_random; rw [← h1.1.1.1, hk] at h2; cases h2
     rw [mkNode_plain j (toRRow c) (es) hk hbl, absNode_plain_ref,
       absNode_plain_cmp _ _ n c.row.action hp.router hp.acts, hact]
-    congr 2
-    rw [dm _ _ (hlast es hall) hp.dest]
+    refine ⟨rfl, rfl, List.Forall₂.cons ⟨n.dexitDest, _, hp.dest, hlast es hall, ?_, rfl⟩ List.Forall₂.nil⟩
     cases (es).getLast? <;> rfl
   | sw rr hk hp =>
     have hact : (toRRow c).act = none := by
@@ -195,27 +198,28 @@ theorem node_abs_eq (rnf : Bool) (F r : Flow) (M : Maps) (ns : Array NodeM) (j :
           rcases h1 with h1 | h1 <;> rw [h1] <;> decide
         rw [if_neg hk', hw]
         rfl
-    have hdests : rr.allCats.map (fun cat => destIdx F (renderDest cat.dest)) =
-        ((refTests (toRRow c).kind (es)).map (fun t => destIdx r t.2.2)) ++
+    have hdests : List.Forall₂ (DR F r M ns es)
+        (((refTests (toRRow c).kind (es)).map (fun t => destIdx r t.2.2)) ++
           [destIdx r (lastTgt ((es).filter (·.cond.blank)) (fun _ => true))] ++
           (match refWait (toRRow c) (es) with
            | some (some (_, td)) => [destIdx r td]
-           | _ => []) := by
+           | _ => []))
+        (rr.allCats.map (fun cat => destIdx F (renderDest cat.dest))) := by
       simp only [SwitchR.allCats, List.map_append, List.map_cons, List.map_nil]
-      congr 1
-      · congr 1
-        · -- the categories of the tests
-          unfold refTests
-          rw [List.map_map]
-          refine forall2_map_eq_mem hp.catd ?_
-          intro cat e he hd
-          refine dm _ _ ?_ hd
-          intro k hk
-          simp only [Option.some.injEq] at hk
-          have : e ∈ es := by unfold testsOf at he; exact hfil _ _ (hfil _ _ hall) e he
-          exact ⟨e, this, hk⟩
-        · -- the default category
-          rw [dm _ _ (hlast _ (hfil _ _ hall)) hp.dflt, lastTgt_eq, List.filter_true]
+      refine List.rel_append (List.rel_append ?_ ?_) ?_
+      · -- the categories of the tests
+        unfold refTests
+        rw [List.map_map]
+        refine forall2_flip_map hp.catd ?_
+        intro cat e he hd
+        refine ⟨cat.dest, some e.tgt, hd, ?_, rfl, rfl⟩
+        intro k hk
+        simp only [Option.some.injEq] at hk
+        have : e ∈ es := by unfold testsOf at he; exact hfil _ _ (hfil _ _ hall) e he
+        exact ⟨e, this, hk⟩
+      · -- the default category
+        refine List.Forall₂.cons ⟨rr.dflt.dest, _, hp.dflt, hlast _ (hfil _ _ hall), ?_, rfl⟩ List.Forall₂.nil
+        rw [lastTgt_eq, List.filter_true]
       · -- the timeout category
         unfold refWait
         rcases hk with h1 | h1
@@ -232,14 +236,16 @@ theorem node_abs_eq (rnf : Bool) (F r : Flow) (M : Maps) (ns : Array NodeM) (j :
               | some nr =>
                 obtain ⟨m, hm⟩ := hp.nrSome.mp (by simp [hnn])
                 rw [hw, hto2] at hm; cases hm
-            simp [this]
+            simp only [this, Option.toList, List.map_nil, if_true]
+            exact List.Forall₂.nil
           | succ m =>
             have : rr.noResp.isSome = true := hp.nrSome.mpr ⟨m, by rw [hw, hto2]⟩
             cases hnn : rr.noResp with
             | none => rw [hnn] at this; cases this
             | some nr =>
               simp only [Option.toList, List.map_cons, List.map_nil, Nat.succ_ne_zero, if_false]
-              rw [dm _ _ (hlast _ (hfil _ _ (hfil _ _ hall))) (hp.nr nr hnn), lastTgt_eq]
+              refine List.Forall₂.cons ⟨nr.dest, _, hp.nr nr hnn, hlast _ (hfil _ _ (hfil _ _ hall)), ?_, rfl⟩ List.Forall₂.nil
+              rw [lastTgt_eq]
         · have ht := type_not_wait h1
           have hw : rr.wait = none := by rw [hp.wait]; unfold waitOf; rw [if_neg ht]
           have hk' : ¬ ((toRRow c).kind = .wait) := by
@@ -252,11 +258,13 @@ theorem node_abs_eq (rnf : Bool) (F r : Flow) (M : Maps) (ns : Array NodeM) (j :
             | some nr =>
               obtain ⟨m, hm⟩ := hp.nrSome.mp (by simp [hnn])
               rw [hw] at hm; cases hm
-          simp [this]
+          simp only [this, Option.toList, List.map_nil]
+          exact List.Forall₂.nil
     have hop : rr.operand = (toRRow c).operand := hp.operand
     have hrn' : rr.resultName = some (toRRow c).saveName := hp.rname
-    rw [htests, hwait, hdests, hop, hrn']
-    rfl
+    refine ⟨rfl, ?_, hdests⟩
+    simp only
+    rw [htests, hwait, hop, hrn']
   | fix rr sc hk hp =>
     have hact : (toRRow c).act = some (c.row.ownAction.getD []) := by
       simp only [nodeRowOk, Bool.or_eq_true] at hfc
@@ -274,8 +282,13 @@ theorem node_abs_eq (rnf : Bool) (F r : Flow) (M : Maps) (ns : Array NodeM) (j :
         rcases hk with h2 | h2 | h2 <;> rw [h3] at h2 <;> cases h2
     have hk' : isFixedKind (toRRow c).kind := hk
     rw [absNode_fix_ref rnf r j (toRRow c) es hk', absNode_fix_cmp rnf F M ns n c es rr sc hk hp hfn0, hact]
-    rw [dm _ _ (hlast _ (hfil _ _ hall)) hp.succ, dm _ _ (hlast _ (hfil _ _ hall)) hp.dflt, lastTgt_eq, lastTgt_eq]
-    rfl
+    refine ⟨rfl, rfl, ?_⟩
+    unfold fixAbs
+    simp only
+    refine List.Forall₂.cons ⟨sc.dest, _, hp.succ, hlast _ (hfil _ _ hall), ?_, rfl⟩ (forall2_replicate
+      ⟨rr.dflt.dest, _, hp.dflt, hlast _ (hfil _ _ hall), ?_, rfl⟩ _)
+    · rw [lastTgt_eq]; rfl
+    · rw [lastTgt_eq]; rfl
   | rnd rr hk hp =>
     have hact : (toRRow c).act = none := by
       simp only [nodeRowOk, Bool.or_eq_true] at hfc
@@ -292,10 +305,12 @@ theorem node_abs_eq (rnf : Bool) (F r : Flow) (M : Maps) (ns : Array NodeM) (j :
         exact h1.2
     have hk' : (toRRow c).kind = .splitRandom := hk
     rw [absNode_rnd_ref rnf r j (toRRow c) es hk' hact, absNode_rnd_cmp rnf F n rr c.row.saveName hp.router hp.acts hp.rname hfn0]
-    congr 1
-    refine (forall2_map_eq_mem hp.rel ?_).symm
+    refine ⟨rfl, rfl, ?_⟩
+    unfold rndAbs
+    simp only
+    refine forall2_flip_map hp.rel ?_
     intro cat b hb hd
-    refine dm _ _ ?_ hd.1
+    refine ⟨cat.dest, some b.2, hd.1, ?_, rfl, rfl⟩
     intro k hk2
     simp only [Option.some.injEq] at hk2
     obtain ⟨e, he, het⟩ := buckets_tgt es b hb
@@ -333,11 +348,47 @@ theorem filterMap_length_congr {α β γ} (L : List α) (f : α → Option β) (
 
 /-- **the compiled flow and the reference flow of a sheet of the fragment have the same
 index-resolved abstraction** -/
-theorem fragment_abs (rnf : Bool) (testTypes : List Str) (rows : List CRow) (out : Out) (r : Flow)
+theorem filterMap_flatMap' {α β γ} (f : α → List β) (g : β → Option γ) (L : List α) :
+    (L.flatMap f).filterMap g = L.flatMap (fun x => (f x).filterMap g) := by
+  induction L with
+  | nil => rfl
+  | cons x L ih => simp [List.flatMap_cons, List.filterMap_append, ih]
+
+theorem map_flatMap' {α β γ} (f : α → List β) (g : β → γ) (L : List α) :
+    (L.flatMap f).map g = L.flatMap (fun x => (f x).map g) := by
+  induction L with
+  | nil => rfl
+  | cons x L ih => simp [List.flatMap_cons, ih]
+
+/-- positions in a list built by `flatMap` -/
+theorem flatMap_pos {α β} (f : α → List β) (L : List α) (t : Nat) (x : α) (hx : L[t]? = some x) (i : Nat)
+    (hi : i < (f x).length) : (L.flatMap f)[((L.take t).flatMap f).length + i]? = (f x)[i]? := by
+  have hL : L = L.take t ++ x :: L.drop (t + 1) := by
+    have := List.getElem?_eq_some_iff.mp hx
+    rw [← this.2]
+    simp
+  have : L.flatMap f = (L.take t).flatMap f ++ (f x ++ (L.drop (t + 1)).flatMap f) := by
+    conv => lhs; rw [hL]
+    rw [List.flatMap_append, List.flatMap_cons]
+  rw [this, List.getElem?_append_right (Nat.le_add_right _ _), Nat.add_sub_cancel_left,
+    List.getElem?_append_left hi]
+
+theorem flatMap_nil_of {α β} (f : α → List β) (L : List α) (h : ∀ x ∈ L, f x = []) : L.flatMap f = [] := by
+  induction L with
+  | nil => rfl
+  | cons x L ih => simp [List.flatMap_cons, h x (by simp), ih (fun y hy => h y (by simp [hy]))]
+
+theorem filterMap_nil_of {α β} (f : α → Option β) (L : List α) (h : ∀ x ∈ L, f x = none) : L.filterMap f = [] := by
+  induction L with
+  | nil => rfl
+  | cons x L ih => simp [List.filterMap_cons, h x (by simp), ih (fun y hy => h y (by simp [hy]))]
+
+/-- **the refinement theorem on the fragment, at the level of traces** -/
+theorem fragment_trace (rnf : Bool) (testTypes : List Str) (rows : List CRow) (out : Out) (r : Flow)
     (hf : inFragment rows = true)
     (hc : compile RefFlow.noArgsTests testTypes (rows.map toEvent) = .ok out)
-    (hr : refFlow (rows.map toRRow) = .ok r) :
-    absFlow ⟨false, rnf⟩ r = absFlow ⟨false, rnf⟩ (renderOut out) := by
+    (hr : refFlow (rows.map toRRow) = .ok r) (env : Nat → Nat) (len : Nat) :
+    trace ⟨false, rnf⟩ r env len = trace ⟨false, rnf⟩ (renderOut out) env len := by
   obtain ⟨s, hrun, hl, ho⟩ := compile_ok hc
   obtain ⟨outE, hp1, hrn⟩ := refFlow_nodes _ _ hr
   obtain ⟨hfr, hgood⟩ := good_of_fragment rows outE hf hp1
@@ -345,10 +396,7 @@ theorem fragment_abs (rnf : Bool) (testTypes : List Str) (rows : List CRow) (out
   obtain ⟨M, hrel⟩ := wp_of_run (rows_sim rows outE hgood rows 0 (fun i c hi => by simpa using hi) hfr
     ⟨fun _ => 0, fun _ => none⟩ _ {} st (rel_init rows _ (fun _ => rfl) _ testTypes rfl) hfold (by rw [hoe])) hrun
   simp only [Nat.zero_add] at hrel
-  -- the compiled nodes, per row
-  have hon : out.nodes = (List.range rows.length).filterMap
-      (fun j => (nodeIdx rows M j).bind (fun i => s.nodes[i]?)) := by rw [ho]; exact out_nodes_rel hrel
-  -- their identifiers are pairwise different
+  -- identifiers of the compiled flow are pairwise different
   have hids := noIdsL_fragment rows hfr
   have a := final_ainv ⟨True, True⟩ ⟨fun _ => okIdsL_of_noIdsL _ hids, fun _ => hids⟩ hrun
   have hI := a.ids trivial
@@ -358,9 +406,10 @@ theorem fragment_abs (rnf : Bool) (testTypes : List Str) (rows : List CRow) (out
     simpa [renderOut, List.map_map, Function.comp_def, renderNode] using this
   have hRU : (r.nodes.map (·.uuid)).Nodup := (refFlow_closed _ _ hr).1
   -- the reference nodes, per row
-  have hrn2 : r.nodes = (List.range rows.length).filterMap (fun j => (rows[j]?).bind (fun c =>
-      if isNodeRow c then some (mkNode j (toRRow c) (outE.filter (·.src = j))) else none)) := by
-    rw [hrn]
+  obtain ⟨fR, hfR⟩ : ∃ fR : Nat → Option Node, fR = fun j => (rows[j]?).bind (fun c =>
+      if isNodeRow c then some (mkNode j (toRRow c) (outE.filter (·.src = j))) else none) := ⟨_, rfl⟩
+  have hrn2 : r.nodes = (List.range rows.length).filterMap fR := by
+    rw [hrn, hfR]
     unfold refNodes
     have := zipIdx_filterMap (fun (rr : RRow) (k : Nat) =>
       if rr.kind.isNode then some (mkNode k rr (outE.filter (·.src = k))) else none) (rows.map toRRow) 0
@@ -371,46 +420,69 @@ theorem fragment_abs (rnf : Bool) (testTypes : List Str) (rows : List CRow) (out
     intro j _
     simp only [List.getElem?_map]
     cases rows[j]? <;> rfl
-  -- the two per-row functions
-  obtain ⟨fR, hfR⟩ : ∃ fR : Nat → Option Node, fR = fun j => (rows[j]?).bind (fun c =>
-      if isNodeRow c then some (mkNode j (toRRow c) (outE.filter (·.src = j))) else none) := ⟨_, rfl⟩
-  obtain ⟨fC, hfC⟩ : ∃ fC : Nat → Option Node, fC = fun j =>
-      ((nodeIdx rows M j).bind (fun i => s.nodes[i]?)).map renderNode := ⟨_, rfl⟩
-  have hFn : (renderOut out).nodes = (List.range rows.length).filterMap fC := by
-    rw [hfC]; simp only [renderOut, hon, List.map_filterMap]
-  rw [← hfR] at hrn2
-  -- what each function gives on a node row
-  have hnodeC : ∀ j c, rows[j]? = some c → isNodeRow c = true →
-      ∃ n, s.nodes[M.nOf j]? = some n ∧ fC j = some (renderNode n) ∧ NodeSim M s.nodes n c (outOf st j) := by
+  -- the compiled nodes, per row
+  obtain ⟨gC, hgC⟩ : ∃ gC : Nat → List Node, gC = fun j =>
+      ((nodeIdxs rows M j).filterMap (fun i => s.nodes[i]?)).map renderNode := ⟨_, rfl⟩
+  have hFn : (renderOut out).nodes = (List.range rows.length).flatMap gC := by
+    simp only [renderOut, ho, emit_rel hrel, filterMap_flatMap', map_flatMap', hgC]
+  generalize renderOut out = F at hU hFn ⊢
+  -- the correspondence: row `j` ↦ index of its reference node, index of its compiled node
+  obtain ⟨V, hV⟩ : ∃ V : Nat → Prop, V = fun j => ∃ c, rows[j]? = some c ∧ isNodeRow c = true := ⟨_, rfl⟩
+  obtain ⟨ia, hia⟩ : ∃ ia : Nat → Nat, ia = fun j => (((List.range rows.length).take j).filterMap fR).length := ⟨_, rfl⟩
+  obtain ⟨ib, hib⟩ : ∃ ib : Nat → Nat, ib = fun j => (((List.range rows.length).take j).flatMap gC).length := ⟨_, rfl⟩
+  obtain ⟨ir, hir⟩ : ∃ ir : Nat → Option Nat, ir = fun j => (M.rOf j).map (fun _ => ib j + 1) := ⟨_, rfl⟩
+  have hsub : ∀ j, ∀ e ∈ outOf st j, e ∈ outE ∧ e.src = j := by
+    intro j e he
+    have := List.mem_filter.mp he
+    exact ⟨by rw [hoe]; exact this.1, by simpa using this.2⟩
+  have hes : ∀ j, outE.filter (·.src = j) = outOf st j := by intro j; rw [hoe]; rfl
+  -- what the rows give
+  have hrowR : ∀ (j : Nat) (c : CRow), rows[j]? = some c → isNodeRow c = true →
+      r.nodes[ia j]? = some (mkNode j (toRRow c) (outOf st j)) := by
     intro j c hcj hn
     have hj : j < rows.length := (List.getElem?_eq_some_iff.mp hcj).1
+    have hrt : (List.range rows.length)[j]? = some j := by simp [hj]
+    have hfr' : fR j = some (mkNode j (toRRow c) (outOf st j)) := by rw [hfR]; simp [hcj, hn, hes]
+    rw [hrn2, hia]
+    exact filterMap_pos fR (List.range rows.length) j j _ hrt hfr'
+  have hrowC : ∀ (j : Nat) (c : CRow), rows[j]? = some c → isNodeRow c = true →
+      ∃ n, s.nodes[M.nOf j]? = some n ∧ RowSim M s.nodes n c (outOf st j) (M.rOf j) ∧
+        F.nodes[ib j]? = some (renderNode n) ∧
+        ∀ i' n', M.rOf j = some i' → s.nodes[i']? = some n' → F.nodes[ib j + 1]? = some (renderNode n') := by
+    intro j c hcj hn
+    have hj : j < rows.length := (List.getElem?_eq_some_iff.mp hcj).1
+    have hrt : (List.range rows.length)[j]? = some j := by simp [hj]
     obtain ⟨n, hn', hsim⟩ := hrel.node j c ⟨.inl hj, hcj, hn⟩
-    exact ⟨n, hn', by rw [hfC]; simp [nodeIdx, hcj, hn, hn'], hsim⟩
-  have hsome : ∀ j ∈ List.range rows.length, (fR j).isSome = (fC j).isSome := by
-    intro j hj
-    obtain ⟨c, hcj⟩ : ∃ c, rows[j]? = some c := ⟨rows[j]'(List.mem_range.mp hj), by simp [List.mem_range.mp hj]⟩
-    by_cases hn : isNodeRow c = true
-    · obtain ⟨n, _, hfc, _⟩ := hnodeC j c hcj hn
-      rw [hfc, hfR]; simp [hcj, hn]
-    · have hn' : isNodeRow c = false := by simpa using hn
-      rw [hfR, hfC]; simp [hcj, hn', nodeIdx]
-  -- a destination of the compiled flow and the target it stands for resolve to the same index
+    refine ⟨n, hn', hsim, ?_, ?_⟩
+    · have h0 : 0 < (gC j).length := by rw [hgC]; simp [nodeIdxs, hcj, hn, idxs, hn']
+      have := flatMap_pos gC (List.range rows.length) j j hrt 0 h0
+      rw [hFn, hib]
+      simp only [Nat.add_zero] at this
+      rw [this, hgC]
+      simp [nodeIdxs, hcj, hn, idxs, hn']
+    · intro i' n' hro hn''
+      have h1 : 1 < (gC j).length := by rw [hgC]; simp [nodeIdxs, hcj, hn, idxs, hn', hro, hn'']
+      have := flatMap_pos gC (List.range rows.length) j j hrt 1 h1
+      rw [hFn, hib]
+      rw [this, hgC]
+      simp [nodeIdxs, hcj, hn, idxs, hn', hro, hn'']
+  -- corresponding destinations resolve to corresponding indices
   have htgts := pass1_targets _ _ hp1
-  have dest_match : ∀ (d : Dest) (t : Option Target),
-      (∀ k, t = some (Target.row k) → ∃ e ∈ outE, e.tgt = Target.row k) → DestIs M s.nodes d t →
-      destIdx (renderOut out) (renderDest d) = destIdx r (t.bind tgtDest) := by
-    intro d t hv hd
+  have dr_to_drel : ∀ (es : List OutEdge) (x y : Option (Option Nat)), (∀ e ∈ es, e ∈ outE) →
+      DR F r M s.nodes es x y → DRel V ia ib x y := by
+    intro es x y hes' ⟨d, t, hd, hv, hx, hy⟩
+    subst hx hy
     cases t with
-    | none => simp only [DestIs] at hd; simp [hd, renderDest, destIdx]
+    | none => simp only [DestIs] at hd; subst hd; exact .none
     | some t =>
       cases t with
       | exit =>
         simp only [DestIs] at hd
-        rcases hd with hd | hd <;> simp [hd, renderDest, destIdx, tgtDest]
+        rcases hd with hd | hd <;> subst hd <;> exact .none
       | row t =>
         obtain ⟨m, hm, hdm⟩ := hd
         obtain ⟨e, he, het⟩ := hv t rfl
-        have hnode := htgts e he
+        have hnode := htgts e (hes' e he)
         rw [het] at hnode
         obtain ⟨rr, hrr, hrk⟩ := hnode
         simp only [List.getElem?_map] at hrr
@@ -420,65 +492,145 @@ theorem fragment_abs (rnf : Bool) (testTypes : List Str) (rows : List CRow) (out
           rw [hct] at hrr
           simp only [Option.map_some, Option.some.injEq] at hrr
           have hnt : isNodeRow ct = true := by rw [← hrr] at hrk; exact hrk
-          have htl : t < rows.length := (List.getElem?_eq_some_iff.mp hct).1
-          obtain ⟨n, hn', hfc, _⟩ := hnodeC t ct hct hnt
+          obtain ⟨n, hn', _, hposC, _⟩ := hrowC t ct hct hnt
           rw [hm] at hn'; injection hn' with hn'; subst hn'
-          have hrt : (List.range rows.length)[t]? = some t := by simp [htl]
-          have hposC := filterMap_pos fC (List.range rows.length) t t (renderNode m) hrt hfc
-          have hfr' : fR t = some (mkNode t (toRRow ct) (outE.filter (·.src = t))) := by
-            rw [hfR]; simp [hct, hnt]
-          have hposR := filterMap_pos fR (List.range rows.length) t t _ hrt hfr'
-          have hleq : (((List.range rows.length).take t).filterMap fR).length =
-              (((List.range rows.length).take t).filterMap fC).length :=
-            filterMap_length_congr _ _ _ (fun x hx => hsome x (List.mem_of_mem_take hx))
-          rw [← hFn] at hposC
-          rw [← hrn2] at hposR
-          have hF := findNode_unique _ _ m.uid (renderNode m) hposC rfl hU
+          have hposR := hrowR t ct hct hnt
+          have hF := findNode_unique F _ m.uid (renderNode m) hposC rfl hU
           have hR := findNode_unique r _ (nodeId t) _ hposR (mkNode_uuid _ _ _) hRU
-          simp only [hdm, renderDest, destIdx, tgtDest, Option.map_some, Option.bind_some, hF, hR, hleq]
-  -- node by node
-  generalize renderOut out = F at dest_match hU hFn ⊢
-  unfold absFlow
-  rw [hrn2, hFn]
-  apply filterMap_map_congr
-  intro j hj
-  obtain ⟨c, hcj⟩ : ∃ c, rows[j]? = some c := ⟨rows[j]'(List.mem_range.mp hj), by simp [List.mem_range.mp hj]⟩
-  by_cases hn : isNodeRow c = true
-  · obtain ⟨n, hn', hfc, hsim⟩ := hnodeC j c hcj hn
-    have hfr' : fR j = some (mkNode j (toRRow c) (outE.filter (·.src = j))) := by rw [hfR]; simp [hcj, hn]
-    rw [hfc, hfr']
-    simp only [Option.map_some]
-    congr 1
-    have hes : outE.filter (·.src = j) = outOf st j := by rw [hoe]; rfl
-    rw [hes]
-    have hsub : ∀ e ∈ outOf st j, e ∈ outE ∧ e.src = j := by
-      intro e he
-      have := List.mem_filter.mp he
-      exact ⟨by rw [hoe]; exact this.1, by simpa using this.2⟩
-    have hnok : nodeRowOk c = true := by
-      have := hfr c (List.mem_of_getElem? hcj)
-      simp only [rowOk, Bool.or_eq_true] at this
-      rcases this with (h1 | h1) | h1
-      · exact h1
-      · exfalso
-        simp only [exitRow, Bool.and_eq_true, Bool.or_eq_true, decide_eq_true_eq] at h1
-        unfold isNodeRow at hn
-        rcases h1.1 with h2 | h2 <;> rw [h2] at hn
-        · rw [kindOf_hard] at hn; cases hn
-        · rw [kindOf_loose] at hn; cases hn
-      · exfalso
-        simp only [gotoRow, Bool.and_eq_true, decide_eq_true_eq] at h1
-        unfold isNodeRow at hn
-        rw [h1.1, kindOf_goto] at hn; cases hn
-    refine node_abs_eq rnf F r M s.nodes j n c (outOf st j) hsim hnok rows hcj ?_ (hI.nodup _ n hn') ?_
-    · intro e he
-      obtain ⟨hm, hsrc⟩ := hsub e he
-      exact ⟨hgood.ok e hm, hsrc⟩
-    · intro d t hv hd
-      exact dest_match d t (fun k hk => by
-        obtain ⟨e, he, het⟩ := hv k hk
-        exact ⟨e, (hsub e he).1, het⟩) hd
-  · have hn' : isNodeRow c = false := by simpa using hn
-    rw [hfR, hfC]; simp [hcj, hn', nodeIdx]
+          have e1 : destIdx r ((some (Target.row t)).bind tgtDest) = some (some (ia t)) := by
+            simp [destIdx, tgtDest, hR]
+          have e2 : destIdx F (renderDest d) = some (some (ib t)) := by
+            simp [hdm, renderDest, destIdx, hF]
+          rw [e1, e2]
+          exact .node t (by rw [hV]; exact ⟨ct, hct, hnt⟩)
+  have hnok : ∀ (j : Nat) (c : CRow), rows[j]? = some c → isNodeRow c = true → nodeRowOk c = true := by
+    intro j c hcj hn
+    have := hfr c (List.mem_of_getElem? hcj)
+    simp only [rowOk, Bool.or_eq_true] at this
+    rcases this with (h1 | h1) | h1
+    · exact h1
+    · exfalso
+      simp only [exitRow, Bool.and_eq_true, Bool.or_eq_true, decide_eq_true_eq] at h1
+      unfold isNodeRow at hn
+      rcases h1.1 with h2 | h2 <;> rw [h2] at hn
+      · rw [kindOf_hard] at hn; cases hn
+      · rw [kindOf_loose] at hn; cases hn
+    · exfalso
+      simp only [gotoRow, Bool.and_eq_true, decide_eq_true_eq] at h1
+      unfold isNodeRow at hn
+      rw [h1.1, kindOf_goto] at hn; cases hn
+  -- the split
+  have hsplit : SplitOf (absFlow ⟨false, rnf⟩ r) (absFlow ⟨false, rnf⟩ F) V ia ib ir := by
+    constructor
+    intro j hvj
+    rw [hV] at hvj
+    obtain ⟨c, hcj, hn⟩ := hvj
+    have hposR := hrowR j c hcj hn
+    obtain ⟨n, hn', hsim, hposC, hposC'⟩ := hrowC j c hcj hn
+    refine ⟨absNode ⟨false, rnf⟩ r (mkNode j (toRRow c) (outOf st j)), by rw [absFlow_getElem?, hposR]; rfl, ?_⟩
+    generalize hro : M.rOf j = ro at hsim
+    cases hsim with
+    | one hsim =>
+      left
+      have hrel1 := node_abs_rel rnf F r M s.nodes j n c (outOf st j) hsim (hnok j c hcj hn) rows hcj
+        (fun e he => ⟨hgood.ok e (hsub j e he).1, (hsub j e he).2⟩) (hI.nodup _ n hn')
+      refine ⟨by rw [hir]; simp [hro], absNode ⟨false, rnf⟩ F (renderNode n), by rw [absFlow_getElem?, hposC]; rfl,
+        hrel1.1, hrel1.2.1, ?_⟩
+      exact hrel1.2.2.imp (fun x y hxy => dr_to_drel _ x y (fun e he => (hsub j e he).1) hxy)
+    | impl i' n' rr hk hp =>
+      right
+      have hact : (toRRow c).act = c.row.action := by
+        have hfc := hnok j c hcj hn
+        simp only [nodeRowOk, Bool.or_eq_true] at hfc
+        rcases hfc with ((h1 | h1) | h1) | h1
+        · simp only [plainActionRow, Bool.and_eq_true, decide_eq_true_eq] at h1
+          exact h1.2.symm
+        · simp only [switchRow, Bool.and_eq_true] at h1
+          have := switch_type h1.1.1.1
+          rcases kindOf_switch this with h2 | h2 | h2 <;> rw [hk] at h2 <;> cases h2
+        · simp only [fixedRow, Bool.and_eq_true] at h1
+          have := fixed_type h1.1.1.1
+          rcases kindOf_fixed this with h2 | h2 | h2 <;> rw [hk] at h2 <;> cases h2
+        · simp only [randomRow, Bool.and_eq_true, decide_eq_true_eq] at h1
+          have h2 := kindOf_random; rw [← h1.1.1.1, hk] at h2; cases h2
+      have hv : ∀ e ∈ (outOf st j).filter (fun e => !e.cond.blank), e.cond.var = implVar (outOf st j) := by
+        intro e he
+        have := hgood.var j c hcj hk e (by rw [hes]; exact he)
+        rw [hes] at this; exact this
+      obtain ⟨h1, h2, h3, h4, h5⟩ := impl_abs rnf F r M s.nodes j n c (outOf st j) i' n' rr hk hp hact hv
+        (hI.nodup _ n' hp.rnode)
+      have hposC2 := hposC' i' n' hro hp.rnode
+      have hF' := findNode_unique F _ n'.uid (renderNode n') hposC2 rfl hU
+      refine ⟨ib j + 1, absNode ⟨false, rnf⟩ F (renderNode n), absNode ⟨false, rnf⟩ F (renderNode n'),
+        by rw [hir]; simp [hro], h1, by rw [absFlow_getElem?, hposC]; rfl, by rw [h2], by rw [h2], ?_,
+        by rw [absFlow_getElem?, hposC2]; rfl, h3, h4, ?_⟩
+      · rw [h2]; simp [destIdx, hF']
+      · exact h5.imp (fun x y hxy => dr_to_drel _ x y (fun e he => (hsub j e he).1) hxy)
+  -- where the two flows start
+  have hstart : (absFlow ⟨false, rnf⟩ r = [] ∧ absFlow ⟨false, rnf⟩ F = []) ∨
+      (absFlow ⟨false, rnf⟩ r ≠ [] ∧ absFlow ⟨false, rnf⟩ F ≠ [] ∧ ∃ j0, V j0 ∧ ia j0 = 0 ∧ ib j0 = 0) := by
+    have hnotV : ∀ j, ¬ V j → fR j = none ∧ gC j = [] := by
+      intro j hj
+      rw [hV] at hj
+      rw [hfR, hgC]
+      cases hcj : rows[j]? with
+      | none => simp [nodeIdxs, hcj]
+      | some c =>
+        have : isNodeRow c = false := by
+          cases hh : isNodeRow c
+          · rfl
+          · exact absurd ⟨c, hcj, hh⟩ hj
+        simp [nodeIdxs, hcj, this]
+    by_cases hex : ∃ j, V j
+    · right
+      -- the first node-producing row
+      obtain ⟨j0, hj0, hmin⟩ : ∃ j0, V j0 ∧ ∀ j, j < j0 → ¬ V j := by
+        obtain ⟨j, hj⟩ := hex
+        induction j using Nat.strong_induction_on with
+        | _ j ih =>
+          by_cases hm : ∃ j', j' < j ∧ V j'
+          · obtain ⟨j', hlt, hj'⟩ := hm
+            exact ih j' hlt hj'
+          · exact ⟨j, hj, fun j' hlt hj' => hm ⟨j', hlt, hj'⟩⟩
+      have hia0 : ia j0 = 0 := by
+        rw [hia]
+        simp only
+        rw [filterMap_nil_of]; rfl
+        intro x hx
+        have : x < j0 := by
+          have := List.mem_take_iff_getElem.mp hx
+          obtain ⟨i, hi, rfl⟩ := this
+          simp at hi ⊢; omega
+        exact (hnotV x (hmin x this)).1
+      have hib0 : ib j0 = 0 := by
+        rw [hib]
+        simp only
+        rw [flatMap_nil_of]; rfl
+        intro x hx
+        have : x < j0 := by
+          have := List.mem_take_iff_getElem.mp hx
+          obtain ⟨i, hi, rfl⟩ := this
+          simp at hi ⊢; omega
+        exact (hnotV x (hmin x this)).2
+      have hj0' := hj0
+      rw [hV] at hj0'
+      obtain ⟨c, hcj, hn⟩ := hj0'
+      have hposR := hrowR j0 c hcj hn
+      obtain ⟨n, _, _, hposC, _⟩ := hrowC j0 c hcj hn
+      refine ⟨?_, ?_, j0, hj0, hia0, hib0⟩
+      · intro h0
+        have := absFlow_getElem? ⟨false, rnf⟩ r (ia j0)
+        rw [h0, hposR] at this; simp at this
+      · intro h0
+        have := absFlow_getElem? ⟨false, rnf⟩ F (ib j0)
+        rw [h0, hposC] at this; simp at this
+    · left
+      have hall : ∀ j, ¬ V j := fun j hj => hex ⟨j, hj⟩
+      constructor
+      · unfold absFlow
+        rw [hrn2, filterMap_nil_of _ _ (fun x _ => (hnotV x (hall x)).1)]; rfl
+      · unfold absFlow
+        rw [hFn, flatMap_nil_of _ _ (fun x _ => (hnotV x (hall x)).2)]; rfl
+  exact trace_eq_of_split ⟨false, rnf⟩ r F V ia ib ir hsplit hstart env len
 
 end Rpft.CoreSheet
